@@ -193,7 +193,7 @@ class _ModeMixin:
 
     @classmethod
     def from_dict(cls, d):
-        return cls(**{k: v for k, v in d.items() if k in ("mode", "k", "two_way", "perm")})
+        return cls(**{k: v for k, v in d.items() if k in ("mode", "k", "two_way", "perm", "restricted")})
 
     def __repr__(self):
         return f"{type(self).__name__}({self.mode!r})"
@@ -364,9 +364,10 @@ class Swap(SymmetryStrategy):
 class Rot(_ModeMixin, DisjointUnionStrategy):
     """relabel the alphabet cyclically by k steps (a unary equivalence); may be declared one-way"""
 
-    def __init__(self, mode="", k=1, two_way=True, perm=None):
+    def __init__(self, mode="", k=1, two_way=True, perm=None, restricted=False):
         self.k = k
         self.two_way = two_way
+        self.restricted = restricted  # True: does not apply to classes whose smallest pattern starts with the last letter; "only": applies only to those
         self.perm = perm  # e.g. "bac": a->b, b->a, c->c (overrides the rotation by k); only for alphabets of that size
         super().__init__(mode=mode)
 
@@ -398,6 +399,9 @@ class Rot(_ModeMixin, DisjointUnionStrategy):
     def decomposition_function(self, c):
         if isinstance(c, SW) or len(c.alphabet) < 2 or self._image(c) == "".join(c.alphabet):
             return None
+        special = min(c.patterns, default="")[:1] == c.alphabet[-1]
+        if (self.restricted == "only" and not special) or (self.restricted and self.restricted != "only" and special):
+            return None
         return (self._kid(c)[0],)
 
     def extra_parameters(self, c, children=None):
@@ -410,7 +414,7 @@ class Rot(_ModeMixin, DisjointUnionStrategy):
         return self.two_way
 
     def formal_step(self):
-        return f"rot{self.k if self.perm is None else self.perm}{'' if self.two_way else ' one-way'} {self.mode}".strip()
+        return f"rot{self.k if self.perm is None else self.perm}{'' if self.two_way else ' one-way'}{' restricted=' + str(self.restricted) if self.restricted else ''} {self.mode}".strip()
 
     def forward_map(self, c, w, children=None):
         return (W(w.translate(self._t(c))),)
@@ -423,10 +427,11 @@ class Rot(_ModeMixin, DisjointUnionStrategy):
         d["k"] = self.k
         d["two_way"] = self.two_way
         d["perm"] = self.perm
+        d["restricted"] = self.restricted
         return d
 
     def __repr__(self):
-        return f"Rot({self.mode!r},{self.k},{self.two_way},{self.perm!r})"
+        return f"Rot({self.mode!r},{self.k},{self.two_way},{self.perm!r}{',restricted=' + str(self.restricted) if self.restricted else ''})"
 
 
 class SW(PW):
@@ -843,7 +848,9 @@ def make_pack(mode="", inferral=False, symmetry=False, iterative=False, factory=
     else:
         exp = [[Expand(mode)]]
     init = [Peel(mode)]
-    if rot:
+    if rot == "split":  # a restricted one-way relabelling first, the same relabelling two-way in the next expansion set: cycles closed by an equivalence
+        exp = [[Rot(mode, 1, False, None, True)], [Rot(mode, 1, True, None, "only")]] + exp
+    elif rot:
         exp = [[Rot(mode, 1, False), Rot(mode, 2, True)]] + exp
     if sep == "plain":
         exp = [[SepUnion(mode), SepSplit(mode)]] + exp
